@@ -4,7 +4,7 @@ from props import solverstream as ss, tracecheck as tc, antie
 
 THEOREMS = ["C03_truthful", "C03_reachable", "C03_graph_refutes", "C03_split_sound", "C03_core_unsat",
             "C03_built_graph_truthful", "C03_graph_of_checked_db_truthful",
-            "C03_analyze_unsolvable_refutes", "C03_checked_conflict_is_refutation"]
+            "C03_analyze_unsolvable_refutes", "C03_checked_conflict_is_refutation", "C03_analyze_unsolvable_side_condition"]
 CHECKER = ("coqc Props/C03.v + Print Assumptions; harness solve_cases: Conflict::graph of every Unsolvable (public API) -> extracted "
            "truthfulb / reachableb / refutesb; hook dump -> extracted check_core on the clause ids reported in the Conflict; "
            "hook dump + clause ids -> extracted build_graph (model of Conflict::graph) must equal the public graph node for node and "
